@@ -416,3 +416,20 @@ func (r *Recorder) Flush(code int) {
 	b, _ := json.Marshal(frag)
 	os.WriteFile(filepath.Join(r.outDir(), fmt.Sprintf("frag-%d-%d.json", Shard(), os.Getpid())), b, 0o644)
 }
+
+// PanicFunc extracts the innermost acra function from a formatted stack trace (debug.Stack()).
+func PanicFunc(stack string) string {
+	for _, line := range strings.Split(stack, "\n") {
+		if strings.Contains(line, "cossacklabs/acra/") && strings.Contains(line, "(") && !strings.HasPrefix(line, "\t") {
+			l := line[strings.LastIndex(line, "/")+1:]
+			if i := strings.Index(l, "("); i > 0 && !strings.Contains(l[:i], " ") {
+				// method receivers look like pkg.(*T).M(...)
+			}
+			if i := strings.LastIndex(l, "("); i > 0 {
+				return l[:i]
+			}
+			return l
+		}
+	}
+	return "unknown"
+}
